@@ -229,3 +229,59 @@ add('C19-foreign-conversation-oob-resets-session', 'mut19', 2, 'C19',
     also=['C11'],
     checks={'C19 quick': 'caught: 20 runs, C19/C11-accept/wrong-conversation',
             'C11 quick': 'caught: 8 runs, C11/accept/wrong-conversation and C11/isolation/session-failed'})
+
+add('C01-recv-forgets-rcv-nxt', 'mut01', 1, 'C01',
+    "the rcv_buf -> rcv_queue loop at the end of Recv loses its rcv_nxt++: a segment moved there is delivered but still expected, so a second copy is accepted and delivered again",
+    change="kcp.go Recv: kcp.rcv_nxt++ removed from the move loop (the twin loop in parse_data keeps it)",
+    needs="the receive queue overrun (rcv_wnd below the 32 the sender assumes, or a stale window advert), the application reading so that Recv moves the waiting segment, and a second copy of that datagram arriving afterwards (duplicate, or retransmission after a lost ACK)",
+    checks={'C01 quick': 'caught: 21 runs, C01/stream/prefix-mismatch'})
+
+add('C04-reconstructed-packet-treated-as-regular', 'mw2_04', 1, 'C04',
+    "packets rebuilt by the FEC decoder are passed to kcp.Input as REGULAR: the stale, larger window of an older packet replaces the newer, smaller one",
+    change="sess.go kcpInput: s.kcp.Input(r[2:sz], IKCP_PACKET_FEC, ...)  ->  IKCP_PACKET_REGULAR",
+    needs="FEC on, the peer's window shrinking, an earlier packet (larger wnd) lost, a later one (smaller wnd) delivered, then parity rebuilding the lost one, with data waiting to be sent",
+    checks={'C04 quick': "caught: 181 runs, C04/admission/new-segment-beyond-advertised-window 'new sn put on the wire with 2 outstanding; min(send window 64, window last advertised to it 0) = 0' (session-level admission oracle and stratum xfer/fec-window, added in response; missed before)"},
+    notes="First evaluation: missed. C04's admission oracle existed only for raw cores (no FEC there); at session level only the occupancy limits were checked. Added: an admission oracle for sessions that keeps its own view of the window last advertised to a sender (wnd of the last segment of the last regular datagram DELIVERED to it - a reconstructed packet tells nothing new), and a stratum with FEC, loss, a small receive window and a slow reader.")
+
+add('C04-timeout-branch-skipped-after-fast-retransmit', 'mw2_04', 2, 'C04',
+    "flush: 'if change > 0 {...} if lostSegs > 0 {...}' becomes 'else if': when one flush does a fast retransmit AND a timeout retransmit, cwnd becomes ssthresh+resend instead of 1",
+    change="kcp.go flush (congestion response): second 'if' turned into 'else if'",
+    needs="congestion control and fast resend on, fewer than 2*fastresend segments in flight, the RTO expiring with no flush in between, duplicate ACKs pushing the oldest segment's skip counter to the threshold in that same flush, then new data",
+    checks={'C04 quick': 'caught: 1 run, C04/admission/new-segment-after-timeout-loss (thin at the quick tier: 1 of 3540 runs; the thorough tier runs 40x as many)'},
+    notes="Close to the recorded finding F1 (a fast retransmission in a LATER flush re-opens the window after a timeout loss, signature ...+fast-retransmit). The oracle distinguishes them: a fast retransmission counted in the SAME step as the timeout loss does not make the run 'reopened', so this change is reported under the plain signature and is not absorbed by F1.")
+
+add('C05-recv-drain-tests-wrong-queue', 'mw2_05', 2, 'C05',
+    "Recv's rcv_buf -> rcv_queue loop tests rcv_buf.Len() < rcv_wnd instead of rcv_queue.Len(): every read drains the whole reorder buffer into an already full queue",
+    change="kcp.go Recv: kcp.rcv_queue.Len() < int(kcp.rcv_wnd)  ->  kcp.rcv_buf.Len() < int(kcp.rcv_wnd)",
+    needs="the reader falling behind until the queue is full, the peer ignoring the zero window and sending the next rcv_wnd sequence numbers, the application reading one message - repeated",
+    also=['C04'],
+    checks={'C04 quick': "caught: 5 runs, C04/occupancy/rcv-queue-exceeds-window '6 segments await the reader, receive window is 4'",
+            'C05 quick': 'missed (the same occupancy oracle runs there, but the C05 forgers did not combine window-ignoring PUSH floods with a reader that reads one message at a time)'},
+    notes="Caught under C04, whose statement (occupancy never exceeds the windows) it breaks; under C05 it would need a forger that keeps sending beyond a zero window while the victim's application reads slowly. Left as is: the violation is reported by the property that owns the limit.")
+
+add('C11-stale-close-removes-replacement', 'mw2_11', 1, 'C11',
+    "UDPSession.Close calls l.closeSession(s.remote) BEFORE the already-closed guard: a second Close of a session the listener has replaced deletes the REPLACEMENT from the listener's table (deletion is by address)",
+    change="sess.go UDPSession.Close: the listener clean-up moved above 'if !once { return ErrClosedPipe }'",
+    needs="a peer reconnecting from the same address (the listener replaces S1 by S2), the application then closing S1 as applications do after a failed Read, and more data on the new conversation",
+    checks={'C11 quick': "caught: 26 runs, C11/accept/wrong-conversation and accept-count oracles (after 'the application closes the replaced session' was added; missed before)"},
+    notes="First evaluation: missed. The harness never closed a session the listener had already closed by itself. It now does, a seeded 1 us .. 100 ms after the replacement.")
+
+add('C11-source-filter-ignores-port', 'mw2_11', 2, 'C11',
+    "sameUDPAddr: 'a.Port != b.Port || a.Zone != b.Zone' becomes '&&': with empty zones the port is never compared, a dialled session accepts datagrams from any port of its peer's host",
+    change="readloop.go sameUDPAddr: || -> &&",
+    needs="a foreign datagram from the peer's IP but another port, carrying the session's conversation id",
+    checks={'C11 quick': "caught: 4 runs, C11/C01-stream/prefix-mismatch and read-beyond-written at the dialled session (after same-host other-port sources were added to the injector; missed before)"},
+    notes="First evaluation: missed. Foreign sources injected at dialled sessions always came from other hosts. The injector now also uses the peer's own IP with another port (as *net.UDPAddr in UDP address mode).")
+
+add('C11-backlog-test-before-existing-session', 'mw2_11', 3, 'C11',
+    "Listener.packetInput tests 'accept backlog full' before looking up the existing session: while 128 unaccepted peers fill the backlog, datagrams of ACCEPTED sessions are dropped too",
+    change="sess.go Listener.packetInput: the backlog-full return moved in front of 'if exist'",
+    needs="a full accept backlog during an accept stall and established sessions with data to move",
+    checks={'C11 quick': 'caught: 3 of the 6 backlog runs, C11/isolation/established-session-stalled-by-unaccepted-peers'},
+    notes="An extra change the C11 round-2 agent left outside its deliverables; kept because the long-stall oracle added for C11-backlog-guard-off-by-one catches it unchanged.")
+
+add('C15-recheck-after-backlog-push-removed', 'mw2_15', 1, 'C15',
+    "Listener.packetInput no longer re-checks 'listener closed?' after pushing the new session to the backlog",
+    change="sess.go Listener.packetInput: the select on l.die / closePendingSessions after l.chAccepts <- s removed",
+    needs="Listener.Close() running after packetInput's early closed-test but before the backlog push of a new peer's session",
+    checks={'C15 quick': 'caught: 294 runs, C15/leak/callback-after-close (stratum peers/listener-close)'})
